@@ -90,6 +90,17 @@ pub fn shapes_at(ks: &[usize], gaps: bool) -> Vec<(String, P)> {
         e.push(edge(0, vec![k], vec![0]));
         e.push(edge(0, vec![0], vec![k + 1]));
         add(format!("cycle-with-tail({})", k), k + 2, e, vec![k], vec![k + 1], &mut out);
+        // a path of k operations into a cycle of c, and a cycle of c followed by a path of k (c = 1, 2, 3)
+        for c in 1..=3usize {
+            if k <= 4 {
+                let mut e: Vec<PEdge<u8>> = (0..k).map(|i| edge(0, vec![i], vec![i + 1])).collect();
+                e.extend((0..c).map(|j| edge(0, vec![k + j], vec![k + (j + 1) % c])));
+                add(format!("path-into-cycle({},{})", k, c), k + c, e, vec![0], vec![], &mut out);
+                let mut e: Vec<PEdge<u8>> = (0..c).map(|j| edge(0, vec![j], vec![(j + 1) % c])).collect();
+                e.extend((0..k).map(|i| edge(0, vec![if i == 0 { 0 } else { c + i - 1 }], vec![c + i])));
+                add(format!("cycle-into-path({},{})", c, k), c + k, e, vec![], vec![c + k - 1], &mut out);
+            }
+        }
         // diamond: a source operation feeding k parallel operations feeding a sink
         let mut e = vec![edge(0, vec![0], (1..=k).collect())];
         e.extend((1..=k).map(|i| edge(0, vec![i], vec![k + i])));
